@@ -32,6 +32,7 @@ import Plotink.Gen.distance
 import Plotink.Gen.dotProductXY
 import Plotink.Gen.position_scale
 import Plotink.Gen.points_near
+import Plotink.Gen.points_equal
 import Plotink.Gen.vInitial_VF_A_Dx
 import Plotink.Gen.vFinal_Vi_A_Dx
 /-! `gen <function> <dps> <args…>`: run a *generated* definition with the concrete rounding instance
@@ -130,6 +131,7 @@ def genHandle (toks : List String) : String :=
       | "position_scale", [a, b, c] => Gen.position_scale R p a b c
       | "points_near", [a, b, c] => Gen.points_near R p a b c
       | "square_dist", [a, b] => Gen.square_dist R p a b
+      | "points_equal", [a, b] => Gen.points_equal R p a b
       | "vInitial_VF_A_Dx", [a, b, c] => Gen.vInitial_VF_A_Dx R p a b c
       | "vFinal_Vi_A_Dx", [a, b, c] => Gen.vFinal_Vi_A_Dx R p a b c
       | "checkLimitsTol", [a, b, c, d] => Gen.checkLimitsTol R p a b c d
